@@ -191,11 +191,11 @@ PROPS = {
              "Date(y,m,d[,h,mi,s]), DayOfWeek(Date(y,m,d)), a call of one of the 37 registered names in random letter case with 0-8 seeded arguments of "
              "every variant type, a panicking delegate - each called either through IFunction.Calculate or through an expression; the scheduler "
              "interleaves the tasks at yield points and advances the fake clock by 0, 1 ns, 999 ms, 1 s, 1 h, 36 h, 400 d or 30 y before resuming a task "
-             "(also in the middle of an evaluation); time.Local is a fixed zone between -12 h and +14 h. Non-trivial: a clock- or zone-dependent call "
+             "(also in the middle of an evaluation); time.Local is a fixed zone between -12 h and +14 h or (30%) a named zone with daylight saving from the embedded tzdata, with dates biased to transition days; one run in 500 makes 2 million Rnd() draws. Non-trivial: a clock- or zone-dependent call "
              "was checked or a function was called through the seam. Distinct: hash of (tasks, configuration, executed schedule with jumps).",
         state_measure="distinct (zone offset, number of tasks, number of clock/zone dependent checks) triples",
         fault_kinds=["delegate_panic"],
-        probes=["clock_jump_inside_evaluation", "now_after_long_jump", "date_in_non_utc_zone", "rnd_draws", "delegate_panic", "seam_calls"] +
+        probes=["clock_jump_inside_evaluation", "now_after_long_jump", "date_in_non_utc_zone", "date_in_dst_zone", "rnd_draws", "rnd_bulk_ops", "delegate_panic", "seam_calls"] +
                ["fn_" + n.lower() for n in ["Ticks", "TimeSpan", "Now", "Date", "DayOfWeek", "Min", "Max", "Sum", "If", "Choose", "E", "Pi", "Rnd", "Random",
                 "Abs", "Acos", "Asin", "Atan", "Exp", "Log", "Ln", "Log10", "Ceil", "Ceiling", "Floor", "Round", "Trunc", "Truncate", "Cos", "Sin", "Tan",
                 "Sqr", "Sqrt", "Empty", "Null", "Contains", "Array"]],
